@@ -245,6 +245,11 @@ func monitor(cs Case, o outcome, img []byte) []finding {
 	if r.TableMsg != "" {
 		fs = append(fs, finding{"impl-violation", "C15:descriptor-table-corrupt:" + cs.Fn, fmt.Sprintf("%s(%s): %s", cs.Fn, fmtArgs(cs.Args), r.TableMsg), nil})
 	}
+	if mayChangeTable[cs.Fn] && r.Errno > 0 && !r.Exit && tableKey(r.Before) != tableKey(r.After) {
+		// a call that reports an error must leave the table as it found it: a descriptor that vanished although the
+		// guest was told the call failed can never be closed by the guest (and its host file leaks)
+		fs = append(fs, finding{"impl-violation", "C15:descriptor-table-changed-by-failed-call:" + cs.Fn, fmt.Sprintf("%s(%s) returned errno %d, yet the table changed: %s -> %s", cs.Fn, fmtArgs(cs.Args), r.Errno, tableKey(r.Before), tableKey(r.After)), nil})
+	}
 	if !mayChangeTable[cs.Fn] && tableKey(r.Before) != tableKey(r.After) {
 		fs = append(fs, finding{"impl-violation", "C15:descriptor-table-changed:" + cs.Fn, fmt.Sprintf("%s(%s): table %s -> %s", cs.Fn, fmtArgs(cs.Args), tableKey(r.Before), tableKey(r.After)), nil})
 	}
